@@ -93,6 +93,12 @@ func (w *vfWorld) tamper(a vfAction) {
 			raw[i] = byte(w.r.next())
 		}
 		b.jar[name] = base64.URLEncoding.EncodeToString(raw)
+	case "huge": // an oversized value (beyond what the cookie codec accepts at all), base64-looking
+		raw := make([]byte, 3000+int(w.r.next()%3000))
+		for i := range raw {
+			raw[i] = byte(w.r.next())
+		}
+		b.jar[name] = base64.URLEncoding.EncodeToString(raw)
 	case "truncate":
 		if v, ok := b.jar[name]; ok && len(v) > 8 {
 			b.jar[name] = v[:len(v)/2]
